@@ -1,5 +1,6 @@
 import Rtsp.Proofs.Pipeline.Log
 import Rtsp.Proofs.Pipeline.UdpOrder
+import Rtsp.Proofs.Pipeline.UdpSub
 import Rtsp.Props.C14
 /-
 # C01 — end-to-end media delivery preserves packets, order and identity
@@ -200,10 +201,58 @@ theorem loss_only_if_signalled (cfg : Cfg) (kinds : List Bool) (pre post : List 
       · exact Or.inr (Or.inl h)
   · exact Or.inr (Or.inr (Or.inl (by rw [hsplit, ref_eq]; exact List.mem_append_left _ href)))
 
+/-- **Nothing written while a reader is not active is ever delivered to it** — not before its first PLAY,
+not between a completed PAUSE and the next PLAY, not after it left (any transport, whatever happens later,
+including a later PLAY): a reader that joins or resumes starts with the packets written from then on. -/
+theorem not_active_not_delivered (cfg : Cfg) (kinds : List Bool) (pre post : List Event) (m : Nat) (p : Pkt)
+    (r : Nat) (hr : r < kinds.length)
+    (hidle : (reader cfg kinds pre r).status = .setup ∨ (reader cfg kinds pre r).status = .gone) :
+    ∀ d ∈ (reader cfg kinds (pre ++ .write m p :: post) r).cbs, d.wid ≠ (writesOf pre).length := by
+  intro d hd
+  have hpre := invariant_reachable cfg kinds pre r hr
+  have hacc := (no_cross_media cfg kinds (pre ++ .write m p :: post) r hr d hd).2
+  have hsplit : reader cfg kinds (pre ++ .write m p :: post) r =
+      rrun cfg (rstep cfg (reader cfg kinds pre r) (.write m p)) (view r post) := by
+    rw [reader_isolation cfg kinds _ r hr, reader_isolation cfg kinds pre r hr]
+    simp only [view, List.filterMap_append, List.filterMap_cons, proj]
+    rw [rrun_append]; rfl
+  rw [hsplit, acc_eq, rstep_acc] at hacc
+  have hnw : (reader cfg kinds pre r).nw = (writesOf pre).length := hpre.nw_eq
+  -- the write itself pushes nothing to this reader
+  have hskip : accOf cfg (reader cfg kinds pre r) (.write m p) = [] := by
+    have : outcome cfg (reader cfg kinds pre r) m = .skip := by
+      rcases hidle with h | h <;> simp [outcome, fanned, h]
+    simp only [accOf, this]
+    cases cfg.ssrcOf m p.pt <;> rfl
+  rw [hskip, List.append_nil] at hacc
+  rcases List.mem_append.mp hacc with h | h
+  · have := hpre.wid_lt h; omega
+  · have := accLog_wid_ge cfg _ _ d h
+    simp only [rstep, rwrite_nw] at this
+    omega
+
 /-- … and a reader discards only by its own PAUSE (`pclose`, `pnil`) or close (`leave`). -/
 theorem discards_only_by_own_pause (cfg : Cfg) (kinds : List Bool) (es : List Event) (r : Nat) (hr : r < kinds.length)
     (hnd : ∀ e ∈ view r es, ¬ Discards e) : (reader cfg kinds es r).disc = [] := by
   rw [reader_isolation cfg kinds es r hr, disc_eq cfg _ _ hnd]
+
+/-- **What a PAUSE / close can forfeit is bounded by the queue**: each of the reader's own discarding
+events adds at most `cap` packets to `disc` (plus, for the close of a reliable reader, the frames still in
+the pipe, which the client no longer reads). -/
+theorem pause_forfeits_at_most_queue (cfg : Cfg) (kinds : List Bool) (es : List Event) (r : Nat) (hr : r < kinds.length) :
+    let x := reader cfg kinds es r
+    (rctl cfg x .pclose).disc.length ≤ x.disc.length + cfg.cap ∧
+    (rctl cfg x .pnil).disc.length ≤ x.disc.length + cfg.cap ∧
+    (rctl cfg x .leave).disc.length ≤ x.disc.length + cfg.cap + x.wire.length := by
+  intro x
+  have hcap : x.queue.length ≤ cfg.cap := (invariant_reachable cfg kinds es r hr).cap
+  refine ⟨?_, ?_, ?_⟩
+  · simp only [rctl]; split <;> simp <;> omega
+  · simp only [rctl]; split <;> simp <;> omega
+  · simp only [rctl]
+    split
+    · omega
+    · split <;> simp <;> omega
 
 /-- **ssrc_announced_eq_carried (every transport).**  The SSRC of every packet handed to a callback is
 the SSRC the stream generated for that media and format — the value the SETUP response announces. -/
@@ -254,6 +303,32 @@ theorem udp_subsequence_partial (cfg : Cfg) (kinds : List Bool) (es : List Event
   rw [harr] at h
   have hp2 : Recv.Pow2 Rtsp.Facts.Recv.defaultBufferSize := ⟨6, by decide, by decide⟩
   exact ⟨h, Rtsp.Recv.C14.from_init true _ (fun _ => hp2) p ps⟩
+
+/-- **udp_subsequence.**  Over UDP the callbacks of a media and format are an in-order subsequence of
+what was written, each write at most once — whatever the network lost, duplicated or reordered — when
+(`Numbered`) the writer numbers the format's packets consecutively (the `j`-th packet of the format carries
+sequence number `s0 + j` mod 2^16, any start `s0`, wrap included) and fewer than 2^15 of them were written,
+and the receiver detected no sender restart (`restart = false` in every step of the C14 run on the
+format's arrivals).  Without the 2^15 bound a 16-bit sequence number cannot tell a packet from the one
+65536 later: that case is left to `udp_subsequence_partial`. -/
+theorem udp_subsequence (cfg : Cfg) (kinds : List Bool) (es : List Event) (r : Nat) (hr : r < kinds.length)
+    (ht : kinds[r] = true) (key : Nat × Nat) (s0 : Nat) (j : Nat → Nat)
+    (hnum : Numbered (reader cfg kinds es r) key s0 j)
+    (hnr : ∀ o ∈ (Recv.run R0 (keyArr key 0 (reader cfg kinds es r).arrived)).2, o.restart = false) :
+    (cbsOf key (reader cfg kinds es r).cbs).Pairwise (fun a b => a.wid < b.wid) := by
+  have hv : VInv (reader cfg kinds es r) := by
+    rw [reader_isolation cfg kinds es r hr, ht]; exact vinv_reachable cfg _
+  have hui : UInv cfg (reader cfg kinds es r) := by
+    rw [reader_isolation cfg kinds es r hr, ht]; exact uinv_reachable cfg _
+  cases harr : keyArr key 0 (reader cfg kinds es r).arrived with
+  | nil =>
+    rw [hv.cbs_run key, harr]
+    simp [released, Recv.run]
+  | cons p ps =>
+    rw [harr] at hnr
+    have hp2 : Recv.Pow2 Rtsp.Facts.Recv.defaultBufferSize := ⟨6, by decide, by decide⟩
+    exact released_wids_increasing cfg _ hui hv key s0 j hnum p ps harr hnr
+      (Rtsp.Recv.C14.from_init true _ (fun _ => hp2) p ps)
 
 /-- **A push is refused exactly when the queue holds `cap` items**, and the queue never holds more. -/
 theorem refused_iff_full (cfg : Cfg) (kinds : List Bool) (es : List Event) (r : Nat) (hr : r < kinds.length) (m : Nat) :
@@ -392,5 +467,11 @@ example : (reader exCfg [false, true] exUdp 1).cbs.map (fun d => (d.media, d.pt,
 /-- the hypothesis of `udp_subsequence_partial` is satisfiable -/
 example : keyArr (0, 97) 0 (reader exCfg [false, true] exUdp 1).arrived =
     [⟨31, 0⟩, ⟨30, 1⟩, ⟨30, 2⟩, ⟨32, 3⟩] := by decide
+
+/-- the hypotheses of `udp_subsequence` hold in that history: format (0, 97) is numbered from 30 by
+position `j wid = wid`, no restart was detected -/
+example : Numbered (reader exCfg [false, true] exUdp 1) (0, 97) 30 (fun wid => wid) ∧
+    (∀ o ∈ (Recv.run R0 (keyArr (0, 97) 0 (reader exCfg [false, true] exUdp 1).arrived)).2, o.restart = false) := by
+  unfold Numbered; decide
 
 end Rtsp.C01
